@@ -42,6 +42,9 @@ pub const TEMPLATES: &[&str] = &[
     "&a : &b\n*a : *b\n",
     "{a: b, ? c, d: }\n",
     "- &a\n  - &b\n    - &c [*a, *b]\n- *c\n",
+    "--- &x foo\n...\n--- &y [ *y, bar ]\n",
+    "&a [ 1, 2 ]\n...\n&m\nself: *m\nother: 3\n",
+    "- &a 1\n- &b 2\n...\n- &c 3\n- &d [*c, *d]\n--- &e {k: *e}\n",
 ];
 
 struct Tee<'i, N: LoadableYamlNode<'i>> {
@@ -248,6 +251,25 @@ pub fn loader_inputs(tier: &str, seed: u64, shard: u64, nshards: u64, scale: f64
             let t = r.pick(TEMPLATES);
             let m = if r.chance(1, 2) { t.to_string() } else { gen::mutate(&mut r, t) };
             f(&m, stats);
+        }
+        if r.chance(1, 12) {
+            // several templates as the documents of one stream, closed by `...` or not
+            let mut s = String::new();
+            for _ in 0..r.range(2, 5) {
+                let t = r.pick(TEMPLATES);
+                if !t.starts_with("---") {
+                    s.push_str(if r.chance(1, 2) { "---\n" } else { "--- " });
+                    if s.ends_with("--- ") && (t.contains(": ") || t.starts_with("- ") || t.starts_with('?')) && !t.starts_with('{') && !t.starts_with('[') {
+                        s.pop();
+                        s.push('\n');
+                    }
+                }
+                s.push_str(t);
+                if r.chance(1, 2) {
+                    s.push_str("...\n");
+                }
+            }
+            f(&s, stats);
         }
     }
     if shard == 0 {
